@@ -88,6 +88,33 @@ def gen_c14(tier, rng):
         for j in range(5):
             ops.append("pk eq z%d z%d" % (i, j))
     cases.append(Case("c14z", ops, True, ("payload-multiple-of-65536",), meta={"eqclasses": [[0, 2], [1], [3, 4]], "noshrink": True}))
+    # a copy shares no state with its original: the reference getPayload() returns is taken BEFORE the copy / assignment and a payload
+    # byte is written through it AFTER (a copy-on-write payload that detaches only in getPayload() shows here and nowhere else); and
+    # packets built from WIRE bytes (typed payload object inside, e.g. a CAN payload) whose payload is modified in place before the
+    # copy (an error flag set through the payload reference): every observation of the copy equals that of the source
+    for _ in range(30 if tier == "quick" else 300):
+        ops = []
+        src = Pkt(rng.choice([0x0101, 0x0102, 0x0108, 0x01FF, 0x0301]), proto.rand_bytes(rng, rng.choice([2, 8, 17, 40])), ver=rng.randrange(1, 4), dev=rng.getrandbits(16),
+                  stream=rng.getrandbits(8), seq=rng.getrandbits(16), ts=rng.getrandbits(64), ifid=rng.getrandbits(32), vend=rng.getrandbits(16), flags=rng.getrandbits(8) & 0xB3,
+                  seg=rng.choice([0, 4, 8, 12]))
+        ops.append(src.line("a"))
+        ops.append(Pkt(0x0103, proto.rand_bytes(rng, 9)).line("t"))
+        for k in range(3):
+            op = rng.choice(["refcopy", "refassign"])
+            dst = rng.choice(["b", "t"])
+            ops += ["pk show a", "pk %s %s a %d %d" % (op, dst, rng.randrange(0, 2), rng.getrandbits(8)), "pk show %s" % dst, "pk show a", "pk eq %s a" % dst]
+        cases.append(Case("c14s", ops, True, ("no-shared-state",)))
+    for _ in range(30 if tier == "quick" else 300):
+        kind = rng.choice(["can", "canfd", "eth", "lin", "analog"])
+        ty, body = proto.valid_payload(rng, kind)
+        if len(body) < 2:
+            continue
+        m = proto.message(rng.getrandbits(64), rng.getrandbits(32), rng.getrandbits(8) & 0xB3, ty & 0xFF, body)
+        ops = ["pk wire a 1 " + m.hex(), "pk show a"]
+        for k in range(3):
+            ops += ["pk plwrite a %d %d" % (rng.randrange(0, 2), rng.choice([1, 2, 0x10, 0xFF, rng.getrandbits(8)])), "pk show a",
+                    "pk %s b a" % rng.choice(["copy", "assign"]), "pk show b", "pk show a", "pk eq a b", "pk eq b a"]
+        cases.append(Case("c14w", ops, True, ("wire-packet-modified-in-place",), meta={"copy_equals_source": True}))
     # TECMP payload objects: copy / assignment / equality (incl. x == x and empty payloads)
     for _ in range(20 if tier == "quick" else 200):
         ops = []
@@ -190,6 +217,16 @@ def pred_c14(case, impl, model, ctx):
                 return False
         elif w[0] in ("pk", "pkt") and w[1] != "show":
             block = {}
+    if case.meta.get("copy_equals_source"):
+        last = None
+        for o, l in zip(case.ops, impl):
+            w = o.split(" ")
+            if w[0] == "pk" and w[1] in ("copy", "assign"):
+                last = (w[2], w[3])
+            elif w[0] == "pk" and w[1] == "eq" and last and {w[2], w[3]} == set(last) and l.startswith("eq=") and l[3] != "1":
+                return False
+            elif w[0] == "pk" and w[1] in ("plwrite", "wire"):
+                last = None
     # target shows the source's former state
     state = {}
     for o, l in zip(case.ops, impl):
@@ -212,8 +249,11 @@ def pred_c14(case, impl, model, ctx):
         elif w[0] == "pk" and w[1] == "massign" and l == "ok":
             if w[2] != w[3]:
                 exp[w[2]], exp[w[3]] = exp.get(w[3]), exp.get(w[2])
-        elif w[0] == "pk" and w[1] in ("set", "setpayload", "drop"):
+        elif w[0] == "pk" and w[1] in ("set", "setpayload", "drop", "plwrite", "wire"):
             exp[w[2]] = None
+        elif w[0] == "pk" and w[1] in ("refcopy", "refassign") and l == "ok":
+            exp[w[2]] = exp.get(w[3])      # the target shows the source as it was BEFORE the write through the old reference
+            exp[w[3]] = None
         elif w[0] == "pkt":
             exp[w[1]] = None
     return True
@@ -237,7 +277,10 @@ def st_packet(rng, kind, dev, ifid, tag):
         ty, d = 0x0302, bytes(g)
     else:
         ty, d = 0x0101, proto.can_payload(b"\x01\x02", ident=tag)
-    return Pkt(ty, d, ver=1, dev=dev, stream=tag % 256, seq=tag % 65536, ts=tag, ifid=ifid if kind == "data" else 0, vend=tag % 65536)
+    # every member of the stored packet varies from update to update (a refresh that forgets one member keeps the old value):
+    # version, segment type and common flags too, not only the fields a status message normally carries
+    return Pkt(ty, d, ver=1 + tag % 3, dev=dev, stream=tag % 256, seq=tag % 65536, ts=tag, ifid=ifid if kind == "data" else 0, vend=tag % 65536,
+               flags=(tag * 37) & 0xB3, seg=(0, 4, 8, 12)[(tag // 2) % 4])
 
 
 def gen_c16(tier, rng):
